@@ -99,4 +99,17 @@ def decHistOk : (c : List Block) → (ops : List Op) → Decidable (HistOk c ops
 
 instance (c : List Block) (ops : List Op) : Decidable (HistOk c ops) := decHistOk c ops
 
+
+/-! ### concrete witnesses used by Props -/
+
+def fc03aEntry : Entry := ⟨50, [0x51], 1, true⟩
+def fc03aDb : Db := fun p => if p = (1, 0) then some fc03aEntry else none
+/-- (1,0) was loaded from the database and spent, not yet flushed. -/
+def fc03aCache : Cache := setSlot emptyCache (1, 0) (some (some ⟨fc03aEntry, true, true, false⟩))
+
+/-- A block with a coinbase paying one spendable and one OP_RETURN output. -/
+def exB1 : Block := ⟨1, ⟨1, [], [⟨50, [0x51]⟩, ⟨0, [0x6a]⟩]⟩, []⟩
+/-- A block whose transaction spends the first block's coinbase. -/
+def exB2 : Block := ⟨2, ⟨2, [], [⟨50, [0x51]⟩]⟩, [⟨3, [(1, 0)], [⟨49, [0x52]⟩]⟩]⟩
+
 end BV.C03.Lemmas
